@@ -72,7 +72,30 @@ Definition optional_call_through_chain (n : node) : bool :=
 
 Definition k_optional_call_through_chain (prog : node) : bool := any_node optional_call_through_chain prog.
 
+(** K6: a bare call [f(args)] whose arguments assign to [f] itself ([f((f = g, 1))]): JavaScript reads the callee before
+    evaluating the arguments; when the call is rewritten (a method allowed without callee) the arguments are captured
+    first and the callee identifier is read afterwards. *)
+Definition writes_ident (f : string) (n : node) : bool :=
+  match n with
+  | Node (K KAssign _ _) (_ :: lhs :: _) => match ident_sym lhs with Some x => String.eqb x f | None => false end
+  | Node (K KUpdate _ _) cs => existsb (fun c => match ident_sym c with Some x => String.eqb x f | None => false end) cs
+  | _ => false
+  end.
+
+Definition bare_call_callee_assigned (n : node) : bool :=
+  match n with
+  | Node (K KCall _ _) [_; callee; Node Lst args; _] =>
+      match ident_sym callee with
+      | Some f => existsb (any_node (writes_ident f)) args
+      | None => false
+      end
+  | _ => false
+  end.
+
+Definition k_bare_call_callee_assigned (prog : node) : bool := any_node bare_call_callee_assigned prog.
+
 (** Names of the classes that apply to a program ([names] = configured method source names). *)
 Definition known_classes (names : list string) (prog : node) : list string :=
   (if k_call_apply_nonstatic names prog then ["call-apply-nonstatic-path"] else []) ++
-  (if k_optional_call_through_chain prog then ["optional-call-through-chain"] else []).
+  (if k_optional_call_through_chain prog then ["optional-call-through-chain"] else []) ++
+  (if k_bare_call_callee_assigned prog then ["bare-call-callee-assigned-in-arguments"] else []).
